@@ -45,6 +45,8 @@ def is_range_check(c, x):
 def run(ctx, chk, tier):
     from . import c10 as _c10s
     _c10s.class_level_state(ctx, chk, rule="R19.2")   # per-object configuration must not live in a container shared by all instances
+    from . import c01 as _c01c
+    _c01c.constructor_sorted(ctx, chk)   # FraudScores is built by Scores.__init__: sorted state, untouched inputs, normalised flags
     from . import c01 as _c01
     _c01.flag_identity(ctx, chk)   # direction flags: identity comparisons need BinaryLabel members on every construction path
     chk.rule_text = ("obligations: 8 label round trips, constructor state on every return path for both score classes, override scan of the class body, "
